@@ -8,6 +8,7 @@ import (
 	"encoding/json"
 	"errors"
 	"fmt"
+	"sort"
 	"strconv"
 	"strings"
 
@@ -340,6 +341,11 @@ func init() {
 			return int64(a) + b, nil
 		},
 		call: func(in []any) (any, error) { return int64(in[0].(int)) + in[1].(int64), nil }})
+
+	for k := range funcs {
+		fnNames = append(fnNames, k)
+	}
+	sort.Strings(fnNames)
 }
 
 // jsonText marks a value as JSON text: compared by meaning (key order and spacing of the
